@@ -133,7 +133,7 @@ Qed.
 (* ------------------------------------------------------------------ normalising sequences (w class) *)
 
 Ltac consts :=
-  unfold sem_bop, sem_uop, sgn, sx, encode, wrap, cmod, cbits, tcls; cbn [bits signed Z.eqb];
+  unfold sem_bop, sem_uop, sgn, sx; cbv [encode wrap tcls bits signed Z.eqb Pos.eqb cmod cbits];
   change (2 ^ 32) with 4294967296 in *; change (2 ^ 8) with 256 in *; change (2 ^ 16) with 65536 in *;
   change (2 ^ (8 - 1)) with 128 in *; change (2 ^ (16 - 1)) with 32768 in *;
   change (256 / 2) with 128 in *; change (65536 / 2) with 32768 in *;
